@@ -51,6 +51,16 @@ func init() {
 			r := smt.Ite(smt.ILt(d, lo), lo, smt.Ite(smt.ILt(hi, d), hi, d))
 			return fromIntTerm(r, types.Int64)
 		},
+		"(time.Time).Add": func(fr *frame, args []value) value {
+			// exact: (sec, nsec) + d nanoseconds, nsec normalised into [0, 1e9)  (no saturation: |sec| stays far below 2^62 in the harnesses)
+			ts, tn := timeParts(args[0])
+			d := intTermOf(args[1])
+			giga := smt.IntConst(big.NewInt(1_000_000_000))
+			tot := smt.IAdd(tn, d)
+			nsec := smt.IMod(tot, giga)
+			sec := smt.IAdd(ts, smt.IDiv(tot, giga))
+			return structure{fromIntTerm(nsec, types.Uint64), fromIntTerm(sec, types.Int64), (*value)(nil)}
+		},
 		"(time.Time).Before": func(fr *frame, args []value) value { return boolVal(timeLess(args[0], args[1])) },
 		"(time.Time).After":  func(fr *frame, args []value) value { return boolVal(timeLess(args[1], args[0])) },
 		"(time.Time).Equal": func(fr *frame, args []value) value {
